@@ -14,6 +14,11 @@ from typing import List, Tuple
 
 PY = sys.executable
 NWORKERS = int(os.environ.get("VERIF_WORKERS", "16"))
+NATIVE_SAMPLES = int(os.environ.get("VERIF_NATIVE_SAMPLES", "60"))
+try:
+    SEED = int(os.environ.get("VERIF_SEED", "0"))
+except ValueError:
+    SEED = 0
 
 
 @dataclass
@@ -107,9 +112,13 @@ def run_jobs(jobs: List[SJob], twin_all=False) -> SOutcome:
             tasks.append((j, lo, hi, "main"))
             if twin_all or k == 0:
                 tasks.append((j, lo, hi, "twin"))
+            tasks.append((j, lo, hi, "sample"))
 
     def work(t):
         j, lo, hi, mode = t
+        if mode == "sample":
+            r, err = _spawn(["sample", j.module, j.fn, lo, hi, NATIVE_SAMPLES, SEED + lo], 900)
+            return t, r, err
         ct = j.cond_timeout if mode == "main" else min(j.cond_timeout, 120)
         r, err = _spawn(["run", j.module, j.fn, lo, hi, ct, j.path_timeout, mode], ct * 1.6 + 120)
         return t, r, err
@@ -124,12 +133,25 @@ def run_jobs(jobs: List[SJob], twin_all=False) -> SOutcome:
     for (j, lo, hi, mode), r, err in results:
         tag = "%s.%s[%d,%d)" % (j.module.split(".")[-1], j.fn, lo, hi)
         if r is None:
+            if mode == "sample":
+                out.harness_errors.append("native sampling of %s failed: %s" % (tag, err))
+                continue
             if mode == "twin":
                 out.twins += 1
                 out.harness_errors.append("twin %s: %s" % (tag, err))
             else:
                 out.partitions += 1
                 out.inconclusive.append({"partition": tag, "why": err})
+            continue
+        if mode == "sample":
+            out.native_cross_checks = getattr(out, "native_cross_checks", 0) + r.get("ran", 0)
+            for f in r.get("fails", []):
+                rec = {"harness": j.module, "fn": j.fn, "partition": [lo, hi], "state": "NATIVE_SAMPLE", "argstr": f["argstr"],
+                       "message": "native cross-check input fails: " + f["returned"], "native_replay": {"returned": f["returned"]}}
+                if f["returned"].startswith("native raised"):
+                    out.harness_errors.append("harness %s raised on native sample %s: %s" % (tag, f["argstr"], f["returned"][:300]))
+                else:
+                    out.counterexamples.append(rec)
             continue
         msgs = r["messages"]
         states = [m["state"] for m in msgs]
@@ -195,6 +217,7 @@ def fold_into(run, so: SOutcome, replay_cmd_hint=""):
     c["s_z3_check_calls"] = c.get("s_z3_check_calls", 0) + so.checks
     c["s_solver_seconds"] = round(c.get("s_solver_seconds", 0) + so.solver_s, 2)
     c["s_vacuity_twins_reached"] = "%d/%d" % (so.twins_ok, so.twins)
+    c["s_native_cross_check_inputs"] = c.get("s_native_cross_check_inputs", 0) + getattr(so, "native_cross_checks", 0)
     c.setdefault("s_harnesses", {}).update(so.per_job)
     for i in so.inconclusive:
         run.inconclusive.append(i)
